@@ -230,6 +230,38 @@ def run(ck):
     ck.apalache('MC_Placement', 'Inv')
     ck.apalache('MC_Placement', 'Wrong', expect_error=True)
     thin_and_tiny(ck)
+    box_edges_and_joint_crossings(ck)
+
+
+def box_edges_and_joint_crossings(ck):
+    """(a) a line that meets a curve at a point on the edge of the curve's control box (an end point that is the extreme control point) and lies beyond that edge:
+    both operand orders report the same contacts; (b) paths where one crossing sits exactly on a joint of the first path and more crossings follow: every returned
+    pair is coherent"""
+    curves = [sp.CubicBezier(0j, 3 + 2j, 7 + 2j, 10 + 0j), sp.CubicBezier(0j, 2 + 3j, 4 + 5j, 6 + 6j), sp.QuadraticBezier(0j, 4 + 3j, 10 + 0j), sp.CubicBezier(2 + 1j, 4 + 6j, 8 - 4j, 9 + 9j)]
+    for cv in curves:
+        for at, out in ((cv.end, (4 + 3j)), (cv.end, (3 - 5j)), (cv.start, (-4 - 2j)), (cv.start, (-1 + 6j)), (cv.end, (5 + 0j))):
+            for ln in (sp.Line(at, at + out), sp.Line(at + out, at)):
+                ck.case(fp=('box-edge', repr(cv), repr(ln)), nontrivial=True)
+                pair_case(ck, 'line meeting a curve at its end point, beyond the control box', cv, ln, None, 1e-5, {'curve': repr(cv), 'line': repr(ln)})
+    zig = sp.Path(sp.Line(0j, 4 + 4j), sp.Line(4 + 4j, 8 + 0j), sp.CubicBezier(8 + 0j, 10 + 6j, 14 - 6j, 16 + 0j), sp.Line(16 + 0j, 20 + 4j))
+    probes = [sp.Path(sp.Line(4 - 2j, 4 + 4j), sp.Line(4 + 4j, 4 + 8j), sp.Line(4 + 8j, 18 + 8j), sp.Line(18 + 8j, 18 - 3j)),      # through the joint at 4+4j, then across the last line
+              sp.Path(sp.Line(-1 + 1j, 21 + 1j)), sp.Path(sp.Line(8 - 3j, 8 + 3j), sp.QuadraticBezier(8 + 3j, 14 + 9j, 19 - 2j)),
+              sp.Path(sp.CubicBezier(4 + 4j, 9 - 9j, 13 + 9j, 18 + 2j))]
+    for pi_, pr_ in enumerate(probes):
+        for A, B in ((zig, pr_), (pr_, zig)):
+            ck.case(fp=('joint-then-more', pi_, A is zig), nontrivial=True)
+            try:
+                res = A.intersect(B)
+            except Exception as e:      # noqa
+                ck.disagree(key='Path.intersect/raises-' + type(e).__name__, site='svgpathtools/path.py:Path.intersect', what='joint crossing family %d raised %r' % (pi_, e), case={'probe': pi_}, expected='list', observed=repr(e), driver='path')
+                continue
+            for ((T1, s1, t1), (T2, s2, t2)) in res:
+                pts = [A.point(T1), s1.point(t1), s2.point(t2), B.point(T2)]
+                okm = any(s1 is s_ for s_ in A) and any(s2 is s_ for s_ in B)
+                if not okm or not (max(abs(p_ - pts[0]) for p_ in pts) <= 1e-5 * 25):
+                    ck.disagree(key='Path.intersect/incoherent', site='svgpathtools/path.py:Path.intersect', what='a crossing on a joint followed by more crossings (family %d): ((%r, seg, %r), (%r, seg, %r)) gives points %s (members: %s)' % (pi_, T1, t1, T2, t2, pts, okm),
+                                case={'probe': pi_}, expected='four equal points on member segments', observed=[str(p_) for p_ in pts], driver='path')
+                    break
 
 
 def thin_and_tiny(ck):
